@@ -1,5 +1,6 @@
 import VermouthProofs.C02_Atoms
 import VermouthProofs.C02_Walk
+import VermouthProofs.C02_Errors
 import Generated.C02Tables
 /-!
 # C02 — a written ITP states exactly the molecule held in memory
@@ -92,6 +93,35 @@ theorem no_loss_no_dup (m : Mol) : (canon m).inters.Perm (memoryRecords m) := by
     List.Perm.flatMap_right _ (List.mergeSort_perm _ _)
   rw [sectKeys_flatMap m.inters (toPInter (correspondence m))] at h2
   exact h1.trans h2
+
+/-! ## what the writer refuses -/
+
+/-- **The writer raises exactly on the unwritable molecules** (`writable`, decidable): it
+succeeds iff there is at least one atom, no atom has a mass but no charge, no interaction has
+both `ifdef` and `ifndef`, every interaction atom is a node and no `virtual_sitesn` interaction is
+without atoms. -/
+theorem write_succeeds_iff (m : Mol) : (∃ ls, write m = .ok ls) ↔ writable m = true :=
+  write_isOk_iff m
+
+/-- An atom with a mass but no charge cannot be expressed in the positional `[ atoms ]` columns
+(the mass would be read back as the charge): the writer refuses the molecule with ValueError,
+whatever else it contains. -/
+theorem write_rejects_mass_without_charge (m : Mol) (a : Atom) (ha : a ∈ m.atoms)
+    (hm : a.mass ≠ "") (hc : a.charge = "") : write m = .error .valueerror := by
+  unfold write
+  by_cases he : m.atoms.isEmpty = true
+  · simp [he]
+  · have hall : m.atoms.all atomOk = false := by
+      rw [List.all_eq_false]
+      exact ⟨a, ha, by simp [atomOk, hm, hc]⟩
+    simp [he, hall]
+
+/-- conversely a successful write means every atom row has its charge whenever it has a mass -/
+theorem written_atoms_expressible (m : Mol) (ls : List Line) (h : write m = .ok ls) :
+    ∀ a ∈ m.atoms, a.mass ≠ "" → a.charge ≠ "" := by
+  intro a ha hm hc
+  rw [write_rejects_mass_without_charge m a ha hm hc] at h
+  cases h
 
 /-! ## the round trip -/
 
@@ -247,6 +277,12 @@ unordered keys, a permuted / partly absent atom id, guards, groups, impropers, `
 example : ∃ ls, write exMol = .ok ls ∧ parseTokens arityTable (ls.map lineTokens) = .ok (canon exMol) :=
   parse_write_tokens_repo exMol (by decide)
 example : (exMol.atoms.map (·.key)).Nodup := by decide
+example : writable exMol = true := by decide
+/-- a molecule that is refused: second atom has a mass and no charge -/
+example : write { exMol with atoms := exMol.atoms ++ [⟨9, none, "C1", "2", "GLY", "SC1", "4", "", "36.0"⟩] }
+    = .error .valueerror :=
+  write_rejects_mass_without_charge _ ⟨9, none, "C1", "2", "GLY", "SC1", "4", "", "36.0"⟩
+    (by simp) (by decide) rfl
 example : charOk exMol = true := by decide
 example : ∃ ls, write exMol = .ok ls ∧ parse arityTable (render ls) = .ok (canon exMol) :=
   parse_write_repo exMol (by decide) (by decide)
